@@ -1051,30 +1051,59 @@ func timeNanosecond(c *CallCtx) (Value, bool) {
 	return c.e.ts.Fresh("opaque:ns", BVSort(64)), true
 }
 
-// timeSleep: a polling pause. The thread is descheduled until another thread
-// makes progress; when no other thread can run it simply continues (the pause
-// elapses). A polling pass that neither made nor saw any progress while nothing
-// else can run is reported as a livelock.
+// timeSleep: a polling pause. The thread is descheduled until another thread makes
+// progress; when no non-polling thread can run, the pause simply elapses. A poller whose
+// whole pass (from its last wake-up to this pause) saw no progress by anyone is "clean";
+// when only pollers are left and all of them are clean at the current progress value,
+// nothing can ever change again: a livelock.
 func timeSleep(c *CallCtx) (Value, bool) {
 	e, st, fr := c.e, c.st, c.fr
-	if fr.Yielded {
-		return nil, true
-	}
 	th := st.thread()
 	me := st.cur
-	if !otherRunnable(e, st, me) {
-		if th.SleepSnap == st.progress+1 {
-			panic(pathEnd{kind: "deadlock", msg: "livelock: polling loop repeats without progress at " + e.pos(e.curInstr)})
-		}
-		th.SleepSnap = st.progress + 1
+	if fr.Yielded {
+		th.PassStart = st.progress
 		return nil, true
 	}
-	fr.Yielded = true
+	clean := th.PassStart == st.progress
+	th.CleanAt = -1
+	if clean {
+		th.CleanAt = st.progress
+	}
 	snap := st.progress
-	th.SleepSnap = snap + 1
+	if !otherRunnable(e, st, me) {
+		if !clean {
+			th.PassStart = st.progress
+			return nil, true // the pause elapses; my own pass changed something, look again
+		}
+		pending := false
+		for i, t := range st.threads {
+			if i != me && !t.Done && t.Sleeping && t.CleanAt != snap {
+				pending = true
+			}
+		}
+		if !pending {
+			panic(pathEnd{kind: "deadlock", msg: "livelock: polling loop repeats without progress at " + e.pos(e.curInstr)})
+		}
+	}
+	fr.Yielded = true
 	th.Sleeping = true
 	e.block(st, "time.Sleep (polling) at "+e.pos(e.curInstr), func(e *Engine, s *State) bool {
-		return s.progress > snap || !otherRunnable(e, s, me)
+		if s.progress > snap {
+			return true
+		}
+		if otherRunnable(e, s, me) {
+			return false
+		}
+		if !clean {
+			return true
+		}
+		// clean poller: give the other pollers their pass first; resume when all are clean (livelock is then reported)
+		for i, t := range s.threads {
+			if i != me && !t.Done && t.Sleeping && t.CleanAt != snap {
+				return false
+			}
+		}
+		return true
 	})
 	return nil, false
 }
@@ -1320,26 +1349,34 @@ func sortStrings(c *CallCtx) (Value, bool) {
 func pathJoin(c *CallCtx) (Value, bool) {
 	e := c.e
 	items := e.strSliceElems(c.st, c.args[0])
-	var ps []string
+	join := func(cs []*Term) *Term {
+		ps := make([]string, len(cs))
+		for i, x := range cs {
+			ps[i] = x.Str
+		}
+		return e.ts.StrC(pathJoinGo(ps))
+	}
+	allConst := true
 	for _, it := range items {
 		if !it.IsConst() {
-			// symbolic component: fall back to plain concatenation with "/"
-			var parts []*Term
-			for i, x := range items {
-				if i > 0 {
-					parts = append(parts, e.ts.StrC("/"))
-				}
-				parts = append(parts, x)
-			}
-			return e.ts.StrConcat(parts...), true
+			allConst = false
 		}
-		ps = append(ps, it.Str)
 	}
-	return e.ts.StrC(pathJoinGo(ps)), true
+	if allConst {
+		return join(items), true
+	}
+	// finite-domain components (ite-trees over constants): join every combination
+	if r, ok := e.ts.liftArgs(items, join); ok {
+		return r, true
+	}
+	panic(pathEnd{kind: "unmodelled", msg: "path.Join on a non-finite symbolic component"})
 }
 
 func pathDir(c *CallCtx) (Value, bool) {
 	s := c.args[0].(*Term)
+	if r, ok := c.e.ts.liftArgs([]*Term{s}, func(cs []*Term) *Term { return c.e.ts.StrC(pathDirGo(cs[0].Str)) }); ok {
+		return r, true
+	}
 	if !s.IsConst() {
 		panic(pathEnd{kind: "unmodelled", msg: "path.Dir on symbolic path"})
 	}
